@@ -1,4 +1,5 @@
 import Qvnt.Props.C04
+import Qvnt.Props.Code.C04
 open Qvnt
 #print axioms C04_apply
 #print axioms C04_junk_irrelevant
@@ -9,3 +10,5 @@ open Qvnt
 #print axioms C04_reg
 #print axioms C04_reg_size
 #print axioms C04_commute
+#print axioms C04_code_apply
+#print axioms C04_code_mul
